@@ -193,6 +193,7 @@ pub fn run_pair(case: &MCase, settle: u64, configure: impl FnOnce(&mut Model)) -
             Ev::Repeat(k) => {
                 sim.repeat(*k);
             }
+            Ev::Tap(_) => {}
             Ev::Gap(g) => {
                 for _ in 0..*g {
                     sim.tick();
